@@ -170,6 +170,7 @@ type App struct {
 	userToDevice map[string]string
 	NextTask     int
 	pendingConc  *ctask // the concurrent task about to start (tasks are started one at a time)
+	FreshSessionOnApproval bool // set per device_decide step (see DeviceVerify)
 }
 
 func NewApp(w *World) *App { return &App{W: w, userToDevice: map[string]string{}} }
@@ -444,6 +445,8 @@ func (a *App) DeviceAuth(form url.Values, basic *Basic) *Resp {
 
 // DeviceVerify is the application's verification page: the user enters the user code and accepts or rejects.
 // Returns "" on success or a reason the page refused the code.
+// FreshSessionOnApproval: the verification page replaces the session stored at device-authorization time (when the user was
+// unknown) with a new one for the user it identified - it carries no device-code expiry of its own.
 func (a *App) DeviceVerify(userCode string, accept bool, subject string, grant []string, grantAud []string) string {
 	t, ctx := a.task()
 	_ = t
@@ -474,6 +477,9 @@ func (a *App) DeviceVerify(userCode string, accept bool, subject string, grant [
 				if grantAud == nil || has(grantAud, aud) {
 					r.GrantAudience(aud)
 				}
+			}
+			if a.FreshSessionOnApproval {
+				r.SetSession(a.newSession(subject))
 			}
 			setSessionSubject(r.GetSession(), subject)
 			if os, ok := r.GetSession().(openid.Session); ok {
